@@ -27,7 +27,7 @@
      defined, it is (e v <> None). *)
 From PV Require Import Lib.Bytes Gen.CondSimpSets Spec.BmakeCond Model.CondSimp
   Proofs.CondSimpA Proofs.CondSimpB Proofs.CondSimpNum Proofs.CondSimpC Proofs.CondSimpWords Proofs.CondSimpD
-  Proofs.CondSimpE.
+  Proofs.CondSimpE Proofs.CondSimpF.
 Open Scope N_scope.
 
 (* ---- the regenerated literals are the ones the model was written against ---- *)
@@ -270,3 +270,30 @@ Example C14_nested_needs_expanded_promise :
   eval ex_env (CLeaf (LExpr ex_V [ModM ex_nested_pat])) = Some TFalse /\
   (forall w, str_match w ex_nested_pat = true -> exists r, w = 36 :: r).
 Proof. exact nested_needs_expanded_promise. Qed.
+
+(* ---- Autofix.Replace: from "the rewrite (from, to) keeps the value" to "the line pkglint writes" ---- *)
+(* a fix is carried out only as: one occurrence of the from-text, the first one, replaced by the to-text *)
+Theorem C14_autofix_replace_spec : forall line from to line',
+  autofix_replace line from to = Some line' ->
+  exists a b, line = a ++ from ++ b /\ line' = a ++ to ++ b /\ no_start_in from a (from ++ b).
+Proof. exact autofix_replace_spec. Qed.
+Print Assumptions C14_autofix_replace_spec.
+
+(* the final line is reached from the original by carrying out exactly the logged fixes, in
+   order, each on the line its predecessors left; every logged fix is one that was offered *)
+Theorem C14_apply_rewrites_spec : forall rws line line' done,
+  apply_rewrites line rws = (line', done) ->
+  rewritten line done line' /\ (forall rw, In rw done -> In rw rws).
+Proof. exact apply_rewrites_spec. Qed.
+Print Assumptions C14_apply_rewrites_spec.
+
+(* ---- obligations on the regenerated byte sets: a wrong table breaks one of these ---- *)
+Theorem C14_tables_fit_the_reader :
+  forallb word_char lit_unquoted_set = true /\
+  forallb (fun c => plain_mod_char 125 c && plain_mod_char 41 c) lit_pattern_set = true /\
+  forallb (fun c => (c =? 58) || (plain_mod_char 125 c && plain_mod_char 41 c)) simple_mod_set = true /\
+  forallb (in_set match_special_set) [42; 63; 91; 92] = true /\
+  forallb (in_set numeric_head_set) [43; 45; 46; 48; 49; 50; 51; 52; 53; 54; 55; 56; 57] = true /\
+  in_set lit_pattern_set 36 = false /\ in_set simple_mod_set 36 = false.
+Proof. exact tables_fit_the_reader. Qed.
+Print Assumptions C14_tables_fit_the_reader.
